@@ -1392,6 +1392,7 @@ func compileTableExpr(context *funcContext, reg int, ex *ast.TableExpr, ec *expc
 	regbase := reg
 
 	arraycount := 0
+	unflushed := 0 // positional values waiting in registers for the next SETLIST
 	lastvararg := false
 	for i, field := range ex.Fields {
 		islast := i == len(ex.Fields)-1
@@ -1402,6 +1403,7 @@ func compileTableExpr(context *funcContext, reg int, ex *ast.TableExpr, ec *expc
 			} else {
 				reg += compileExpr(context, reg, field.Value, ecnone(0))
 				arraycount += 1
+				unflushed += 1
 			}
 		} else {
 			regorg := reg
@@ -1416,18 +1418,15 @@ func compileTableExpr(context *funcContext, reg int, ex *ast.TableExpr, ec *expc
 			code.AddABC(opcode, tablereg, b, c, sline(ex))
 			reg = regorg
 		}
-		flush := arraycount % FieldsPerFlush
-		if (arraycount != 0 && (flush == 0 || islast)) || lastvararg {
+		if lastvararg || unflushed == FieldsPerFlush || (islast && unflushed > 0) {
 			reg = regbase
-			num := flush
-			if num == 0 {
-				num = FieldsPerFlush
-			}
-			c := (arraycount-1)/FieldsPerFlush + 1
-			b := num
-			if islast && isVarArgReturnExpr(field.Value) {
+			// the waiting values (and an open call after them) belong to this block
+			c := (arraycount-unflushed)/FieldsPerFlush + 1
+			b := unflushed
+			if lastvararg {
 				b = 0
 			}
+			unflushed = 0
 			line := field.Value
 			if field.Key != nil {
 				line = field.Key
